@@ -14,6 +14,7 @@ WOPT='pkg/writer/options.go'; ROPT='pkg/reader/options.go'
 def m(name,file,find,replace,expect='',why=''): return dict(name=name,file=file,find=find,replace=replace,expect=expect,why=why)
 C={}
 C['C01']=dict(mutants=[
+ m('date-rounded',S23,'p.ReleaseDate = node.ReleaseDate.AsTime().UTC().Format(time.RFC3339)','p.ReleaseDate = node.ReleaseDate.AsTime().UTC().Round(time.Second).Format(time.RFC3339)','date-format-agreement'),
  m('last-supplier-wins',S23,'\t\tif len(node.Suppliers) > 0 && node.Suppliers[0] != nil {\n\t\t\t// TODO(degradation): URL, Phone are lost if set\n\t\t\t// TODO(degradation): If is more than one supplier, it will be lost\n\t\t\tp.PackageSupplier = &spdx.Supplier{\n\t\t\t\tSupplier:     node.Suppliers[0].ToSPDX2ClientString(),\n\t\t\t\tSupplierType: node.Suppliers[0].ToSPDX2ClientOrg(),\n\t\t\t}\n\t\t}\n','\t\tvar supplier *sbom.Person\n\t\tfor _, sp := range node.Suppliers {\n\t\t\tif sp == nil {\n\t\t\t\tcontinue\n\t\t\t}\n\t\t\tsupplier = sp\n\t\t}\n\t\tif supplier != nil {\n\t\t\tp.PackageSupplier = &spdx.Supplier{\n\t\t\t\tSupplier:     supplier.ToSPDX2ClientString(),\n\t\t\t\tSupplierType: supplier.ToSPDX2ClientOrg(),\n\t\t\t}\n\t\t}\n','first-actor-written'),
  m('edge-label-typo',EDGE,'\t\treturn "AMENDS"\n','\t\treturn "AMEND"\n','table-inverse'),
  m('hash-reader-swapped',HASH,'\tcase common.SHA1:\n\t\treturn HashAlgorithm_SHA1','\tcase common.SHA1:\n\t\treturn HashAlgorithm_SHA256','table-inverse'),
@@ -33,6 +34,7 @@ C['C01']=dict(mutants=[
  m('reorder-cases',EDGE,'\tcase Edge_amends:\n\t\treturn "AMENDS"\n\tcase Edge_ancestor:\n\t\treturn "ANCESTOR_OF"\n','\tcase Edge_ancestor:\n\t\treturn "ANCESTOR_OF"\n\tcase Edge_amends:\n\t\treturn "AMENDS"\n'),
 ])
 C['C02']=dict(mutants=[
+ m('file-kind-by-shape',UCDX,'\tif u.componentTypeToPurpose(c.Type) == sbom.Purpose_FILE {','\tif u.componentTypeToPurpose(c.Type) == sbom.Purpose_FILE && (c.Components == nil || len(*c.Components) == 0) {','reader-attribute-independence'),
  m('unknown-phase-typed',UCDX,'\t\treturn sbom.DocumentType_ANALYZED.Enum()\n\tdefault:\n\t\treturn nil','\t\treturn sbom.DocumentType_ANALYZED.Enum()\n\tdefault:\n\t\treturn sbom.DocumentType_OTHER.Enum()','table-inverse'),
  m('extref-writer-wrong',SCDX,'\tcase sbom.ExternalReference_VCS:\n\t\treturn cdx.ERTypeVCS','\tcase sbom.ExternalReference_VCS:\n\t\treturn cdx.ERTypeWebsite','table-inverse'),
  m('hash-sibling-diverges',FUNCS,'\tcase cdx.HashAlgoSHA1:\n\t\treturn HashAlgorithm_SHA1','\tcase cdx.HashAlgoSHA1:\n\t\treturn HashAlgorithm_SHA256',''),
@@ -101,6 +103,7 @@ C['C07']=dict(mutants=[
  m('explicit-nil-check',SCDX,'\tfor _, n := range bom.GetNodeList().GetNodes() {\n\t\tcomp := s.nodeToComponent(n)','\tfor _, n := range bom.GetNodeList().GetNodes() {\n\t\tif n == nil {\n\t\t\tcontinue\n\t\t}\n\t\tcomp := s.nodeToComponent(n)'),
 ])
 C['C08']=dict(mutants=[
+ m('root-before-validation',NL,'\t\tRootElements: []string{},\n\t}\n\n\t// Get the list of connected nodes','\t\tRootElements: []string{id},\n\t}\n\n\t// Get the list of connected nodes','extraction-root-is-present'),
  m('addnode-filters',NL,'func (nl *NodeList) AddNode(n *Node) {\n\tnl.Nodes = append(nl.Nodes, n)','func (nl *NodeList) AddNode(n *Node) {\n\tif n == nil || n.Id == "" {\n\t\treturn\n\t}\n\tnl.Nodes = append(nl.Nodes, n)','loop-totality'),
  m('union-skips-clean',NL,'\tret.cleanEdges()\n\n\t// Copy all root nodes from nl2','\t// Copy all root nodes from nl2','passes-normaliser'),
  m('clean-target-unfiltered',NL,'\t\t\tif _, ok := nodeIndex[s]; !ok {\n\t\t\t\tcontinue\n\t\t\t}\n','','normaliser-filters'),
@@ -122,6 +125,7 @@ C['C09']=dict(mutants=[
  m('len-neq-zero',NODE,'\tif len(n2.Attribution) > 0 {\n\t\tn.Attribution = n2.Attribution\n\t}','\tif len(n2.Attribution) != 0 {\n\t\tn.Attribution = n2.Attribution\n\t}'),
 ])
 C['C10']=dict(mutants=[
+ m('update-only-when-different',NL,'\t\tnewnode.Update(ni2[id].Copy())\n','\t\tif !node.Equal(ni2[id]) {\n\t\t\tnewnode.Update(ni2[id].Copy())\n\t\t}\n','intersection-attributes'),
  m('membership-inverted',NL,'\t\tif _, ok := ni2[id]; !ok {\n\t\t\tcontinue\n\t\t}\n\t\t// Clone the node','\t\tif _, ok := ni2[id]; ok {\n\t\t\tcontinue\n\t\t}\n\t\t// Clone the node','intersection-membership'),
  m('update-from-first',NL,'\t\tnewnode.Update(ni2[id].Copy())','\t\tnewnode.Update(ni1[id].Copy())','intersection-attributes'),
  m('drop-second-edges',NL,'\tfor _, e := range nl2.Edges {\n\t\texistingEdge := ret.GetEdgeByType(e.From, e.Type)\n\t\tif existingEdge == nil {\n\t\t\tret.Edges = append(ret.Edges, e.Copy())\n\t\t} else {\n\t\t\t// Apppend','\tfor _, e := range nl.Edges {\n\t\texistingEdge := ret.GetEdgeByType(e.From, e.Type)\n\t\tif existingEdge == nil {\n\t\t\tret.Edges = append(ret.Edges, e.Copy())\n\t\t} else {\n\t\t\t// Apppend','intersection-edges'),
@@ -135,6 +139,7 @@ C['C11']=dict(mutants=[
  m('clone-via-append',EDGE,'\ttos := slices.Clone(e.To)','\ttos := append([]string{}, e.To...)'),
 ])
 C['C12']=dict(mutants=[
+ m('contacts-len-guard',PERS,'\tif p.Contacts != nil {\n\t\tnp.Contacts = []*Person{}\n\t}','\tif len(p.Contacts) > 0 {\n\t\tnp.Contacts = []*Person{}\n\t}','copy-field-exhaustive'),
  m('node-copy-alias',NODE,'\t\tAttribution:        slices.Clone(n.Attribution),','\t\tAttribution:        n.Attribution,','no-operand-alias-in-result'),
  m('edge-copy-alias',EDGE,'\t\tTo:   slices.Clone(e.To),','\t\tTo:   e.To,','no-operand-alias-in-result'),
  m('union-appends-operand-node',NL,'\t\t\tret.Nodes = append(ret.Nodes, n.Copy())\n\t\t}\n\t}\n\n\t// Add or append all edges','\t\t\tret.Nodes = append(ret.Nodes, n)\n\t\t}\n\t}\n\n\t// Add or append all edges','no-operand-alias-in-result'),
@@ -145,6 +150,7 @@ C['C12']=dict(mutants=[
  m('clone-via-append',NODE,'\t\tFileTypes:          slices.Clone(n.FileTypes),','\t\tFileTypes:          append([]string(nil), n.FileTypes...),'),
 ])
 C['C13']=dict(mutants=[
+ m('hash-values-lowercased',NODE,'\t\tvalues[mk.String()] = v.String()\n','\t\tvalues[mk.String()] = strings.ToLower(v.String())\n','encoding-values-verbatim'),
  m('tag-used-twice',EXT,'\t\tret += fmt.Sprintf("(a)%s", e.Authority)','\t\tret += fmt.Sprintf("(c)%s", e.Authority)','distinct-field-tags'),
  m('comparator-not-an-order',NODE,'\tsort.Strings(keys)\n\tret := \"\"\n\tfor _, algo := range keys {','\tsort.Slice(keys, func(i, j int) bool {\n\t\treturn len(keys[i]) < len(keys[j]) || keys[i] < keys[j]\n\t})\n\tret := \"\"\n\tfor _, algo := range keys {','comparator-is-an-order'),
  m('extref-hash-by-position',EXT,'\t\tfor _, algo := range algos {\n\t\t\thashes = append(hashes, fmt.Sprintf("%d:%s", algo, e.Hashes[int32(algo)]))','\t\tfor i, algo := range algos {\n\t\t\thashes = append(hashes, fmt.Sprintf("%d:%s", algo, e.Hashes[int32(i)]))','schema-map-key'),
@@ -160,6 +166,7 @@ C['C13']=dict(mutants=[
  m('slices-sort',NODE,'\tsort.Strings(pairs)\n\treturn strings.Join(pairs, ":")','\tslices.Sort(pairs)\n\treturn strings.Join(pairs, ":")'),
 ])
 C['C14']=dict(mutants=[
+ m('epoch-date-unset',DIFF,'\tif dt1 != nil {\n','\tif dt1 != nil && (dt1.GetSeconds() != 0 || dt1.GetNanos() != 0) {\n','timestamp-presence-by-nil'),
  m('diff-trusts-equal',DIFF,'func (n *Node) Diff(n2 *Node) *NodeDiff {\n\tnd := NodeDiff{','func (n *Node) Diff(n2 *Node) *NodeDiff {\n\tif n.Equal(n2) {\n\t\treturn nil\n\t}\n\tnd := NodeDiff{','diff-result'),
  m('removed-filtered-in-place',DIFF,'func diffSlice[T comparable](arr1, arr2 []T) (added, removed []T, count int) {\n\tadded = []T{}\n\tremoved = []T{}\n','func diffSlice[T comparable](arr1, arr2 []T) (added, removed []T, count int) {\n\tadded = []T{}\n\tremoved = arr1[:0]\n','diff-operands-unchanged'),
  m('extref-hash-by-position',EXT,'\t\tfor _, algo := range algos {\n\t\t\thashes = append(hashes, fmt.Sprintf("%d:%s", algo, e.Hashes[int32(algo)]))','\t\tfor i, algo := range algos {\n\t\t\thashes = append(hashes, fmt.Sprintf("%d:%s", algo, e.Hashes[int32(i)]))','schema-map-key'),
@@ -172,6 +179,8 @@ C['C14']=dict(mutants=[
  m('map-ignores-value-change',DIFF,'\t\t\tif v1 != v2 {\n\t\t\t\tadded[k] = v2\n\t\t\t}\n','\t\t\t_ = v1\n','diff-helper-semantics'),
 ],benign=[])
 C['C15']=dict(mutants=[
+ m('edge-key-no-separator',NL,'edgeKey := edge.From + "+++" + edge.Type.String()','edgeKey := edge.From + edge.Type.String()','composite-key-separated'),
+ m('start-node-outside-seen-set',NL,'\tni := nodeIndex{node.Id: node}\n','\tnodelist.Nodes = append(nodelist.Nodes, node)\n\tni := nodeIndex{}\n','extraction-nodes-once'),
  m('queue-storage-reused',NL,'\t\tnewLoopNodes = []*Node{}\n','\t\tnewLoopNodes = newLoopNodes[:0]\n','work-list-not-aliased'),
  m('siblings-unguarded-lookup',NL,'\t\t\t\tn := nl.GetNodeByID(to)\n\t\t\t\tif n == nil {\n\t\t\t\t\tcontinue\n\t\t\t\t}\n\t\t\t\tni[to] = n\n','\t\t\t\tni[to] = nl.GetNodeByID(to)\n','absent-part-guard'),
  m('visited-after-recursion',NL,'\t\t(*connectedNodes)[s.Id] = s\n\n\t\t// Traverse the node path:\n\t\tnl.connectedIndexRecursion(s.Id, boundaries, connectedNodes)','\t\t// Traverse the node path:\n\t\tnl.connectedIndexRecursion(s.Id, boundaries, connectedNodes)\n\t\t(*connectedNodes)[s.Id] = s',''),
@@ -192,6 +201,7 @@ C['C16']=dict(mutants=[
  m('ambiguity-swallowed',NL,'\t\tif len(pindex[testPurl]) == 1 {\n\t\t\treturn pindex[testPurl][0], nil\n\t\t}\n\t\treturn nil, ErrorMoreThanOneMatch','\t\treturn pindex[testPurl][0], nil','no-map-order-selection'),
 ],benign=[])
 C['C17']=dict(mutants=[
+ m('register-skips-lazy-init',WR,'\tensureSerializersInitialized()\n\tserializers.Store(format, s)','\tserializers.Store(format, s)','lazy-state-initialised-before-access'),
  m('registry-check-then-store',WR,'func RegisterSerializer(format formats.Format, s native.Serializer) {\n\tensureSerializersInitialized()\n\tserializers.Store(format, s)','func RegisterSerializer(format formats.Format, s native.Serializer) {\n\tensureSerializersInitialized()\n\tif _, ok := serializers.Load(format); ok && s == nil {\n\t\treturn\n\t}\n\tserializers.Store(format, s)','atomic-update-not-lost'),
  m('lookup-unlocked',RD,'\tregMtx.RLock()\n\tdefer regMtx.RUnlock()\n','','package-state'),
  m('register-read-lock',RD,'\tregMtx.Lock()\n\tunserializers[format] = u\n\tregMtx.Unlock()','\tregMtx.RLock()\n\tunserializers[format] = u\n\tregMtx.RUnlock()','package-state'),
@@ -208,6 +218,7 @@ C['C18']=dict(mutants=[
  m('receiver-format-options',RD,'o.GetFormatOptions(unserializer),','r.Options.GetFormatOptions(unserializer),','per-call-reads-argument'),
 ],benign=[])
 C['C19']=dict(mutants=[
+ m('decode-discards-unknown',FS,'\tif err := proto.Unmarshal(data, bom); err != nil {','\tif err := (proto.UnmarshalOptions{DiscardUnknown: true}).Unmarshal(data, bom); err != nil {','retrieve-reads-whole-entry'),
  m('refused-rename-removes-entry',FS,'\tif err := os.Rename(tmpPath, finalPath); err != nil {\n\t\tos.Remove(tmpPath) //nolint:errcheck,gosec // best effort cleanup','\tif err := os.Rename(tmpPath, finalPath); err != nil {\n\t\tos.Remove(finalPath) //nolint:errcheck,gosec // best effort cleanup','entry-never-removed'),
  m('decode-error-shadowed',FS,'\tif err := proto.Unmarshal(data, bom); err != nil {\n\t\treturn nil, fmt.Errorf("unmarshaling protobom data: %w", err)\n\t}','\tif err := proto.Unmarshal(data, bom); err != nil {\n\t\terr = fmt.Errorf("unmarshaling protobom data: %w", err)\n\t}','retrieve-validates'),
  m('wrapper-swallows-error',WR,'\tif err := w.Storage.Store(bom, o.StoreOptions); err != nil {\n\t\treturn fmt.Errorf("calling backend store: %w", err)\n\t}','\tif err := w.Storage.Store(bom, o.StoreOptions); err != nil {\n\t\treturn nil\n\t}','wrapper-propagates-error'),
